@@ -323,6 +323,12 @@ class C09(Prop):
                           faults={"wait": {str(k): f}})
                 if bad:
                     return failed(bad[0], bad[1], labels, True, sub)
+                # ... and every later wait as well (a descriptor gone bad does not recover): carrying on as if
+                # nothing had been readable must not turn into waiting for ever
+                bad = run("selector wait #%d and every later one raise %s" % (k, f), "wait_from:%d:%s" % (k, f), k > 0,
+                          faults={"wait_from": [k, f]})
+                if bad:
+                    return failed(bad[0], bad[1], labels, True, sub)
         # 6. shutdown / close raising
         for op in ("shutdown", "close"):
             for f in ("oserror", "exc"):
